@@ -3,6 +3,7 @@ package main
 import (
 	"fmt"
 	"go/types"
+	"math"
 	"strconv"
 	"strings"
 
@@ -97,6 +98,11 @@ func buildIntrinsics() map[string]intrinsic {
 	}
 	m[vpkg+"verifAssert"] = func(e *Engine, fr *frame, a []value) value {
 		label := e.argStr(a[1])
+		// "Cxx: ..." labels belong to one property; under another property's check they are not decided
+		if e.cfg.Property != "" && len(label) > 4 && label[0] == 'C' && label[3] == ':' && label[:3] != e.cfg.Property {
+			e.assume(a[0].(*Term))
+			return nil
+		}
 		if e.pos < len(e.prefix) {
 			e.assume(a[0].(*Term))
 			return nil
@@ -399,6 +405,39 @@ func buildIntrinsics() map[string]intrinsic {
 	}
 	m["strconv.Itoa"] = func(e *Engine, fr *frame, a []value) value {
 		return e.formatInt(a[0].(*Term), true, e.ts.Const(64, 10))
+	}
+
+	// concrete floating point only (symbolic floats are outside the encoding)
+	m["strconv.FormatFloat"] = func(e *Engine, fr *frame, a []value) value {
+		f, ok := a[0].(float64)
+		fm, ok2 := a[1].(*Term)
+		pr, ok3 := a[2].(*Term)
+		bs, ok4 := a[3].(*Term)
+		if !ok || !ok2 || !ok3 || !ok4 || !fm.IsConst() || !pr.IsConst() || !bs.IsConst() {
+			e.unsupported("strconv.FormatFloat on symbolic value")
+		}
+		return e.mkstr(strconv.FormatFloat(f, byte(fm.Val), int(int64(pr.Val)), int(bs.Val)))
+	}
+	m["strconv.ParseFloat"] = func(e *Engine, fr *frame, a []value) value {
+		s, ok := a[0].(str).concrete()
+		if !ok {
+			e.unsupported("strconv.ParseFloat on symbolic string (floating point is outside the encoding)")
+		}
+		f, err := strconv.ParseFloat(s, int(a[1].(*Term).Val))
+		if err != nil {
+			e.unsupported("strconv.ParseFloat error path")
+		}
+		return tuple{f, iface{}}
+	}
+	m["math.Float64bits"] = func(e *Engine, fr *frame, a []value) value {
+		return e.ts.Const(64, math.Float64bits(a[0].(float64)))
+	}
+	m["math.Float64frombits"] = func(e *Engine, fr *frame, a []value) value {
+		t := a[0].(*Term)
+		if !t.IsConst() {
+			e.unsupported("math.Float64frombits on symbolic value")
+		}
+		return math.Float64frombits(t.Val)
 	}
 
 	// ---- time ----
